@@ -99,3 +99,17 @@ for _form, _rng in (('short', Int(0, 255)), ('long', Int(256, 0xFFFF))):
     contract('nfc.tag.tt3:Type3Tag.write_to_ndef_service', 'C16',
              dict(self=T3(), data=Bytes(16 * 12, 16 * 12, mutable=True), blocks=Fixed([_rng] * 12)),
              name='C16/tt3.write_to_ndef_service[12,%s]' % _form, call='varargs', raises={T3E: []})
+
+# presence check of a Type 4 Tag: the one ISO-DEP path that hands link errors through unmapped; _is_present turns
+# every one of them into False
+from .c12_isodep import ISO   # noqa
+contract('nfc.tag.tt4:Type4Tag._is_present', 'C16', dict(self=Obj('nfc.tag.tt4:Type4Tag', _dep=ISO())),
+         name='C16/tt4._is_present', ensures=[('post.bool', 'result == True or result == False')], raises={})
+# FeliCa Lite: the attribute data read for an authenticated tag - a failed read is None, as for every Type 3 Tag
+contract('nfc.tag.tt3_sony:FelicaLite.NDEF._read_attribute_data', 'C16',
+         dict(self=Obj('nfc.tag.tt3_sony:FelicaLite.NDEF', _partial=False, _data=None, _capacity=0, _readable=False,
+                       _writeable=False,
+                       _tag=Obj('models.tag_models:T3TagAdversary', _partial=False, sys=0x12FC, idm=None, pmm=None,
+                                commands=0, is_authenticated=Bool()))),
+         name='C16/felica-lite._read_attribute_data',
+         ensures=[('post.shape', 'result is None or result["nbr"] >= 0')], raises={})
